@@ -33,6 +33,9 @@ def IsName (g : Green) : Prop := IsTok c .Ident g ∨ IsTok c .IdentParameter g
 /-- `name = expr` -/
 def PField (w : List Green) : Prop := ∃ i a e, w = i :: a :: e ∧ IsName c i ∧ IsTok c .Assign a ∧ PE e
 
+/-- a record field, or `..` -/
+def RF (w : List Green) : Prop := PField c w ∨ ∃ d, w = [d] ∧ IsTok c .DoubleDot d
+
 /-- `(, Ident)*` -/
 inductive UM : List Green → Prop
   | nil : UM []
@@ -91,6 +94,8 @@ def Rs (t : Tag) (s s' : St) : Prop :=
   | .typeTupleOrParen => App (TB c) s s'
   | .typeTupleLoop => Sep E c (TB c) s s'
   | .typeRecordLoop => Sep E c (PRecTy c) s s'
+  | .recordUpdateLoop => Sep E c (PField c) s s'
+  | .recordFieldLoop => Sep E c (RF c) s s'
   | .lambdaParamLoop => App (fun w => ∀ g ∈ w, CstPrint.NoBar c g) s s'
   | _ => True
 
